@@ -654,7 +654,6 @@ fn build_segment_from_runs(seg_id: SegmentId, runs: &Arc<Vec<Arc<L0Run>>>) -> Cs
 
     for run in runs.iter() {
         blocked_nodes.extend(run.iter_tombstoned_nodes());
-        blocked_edges.extend(run.iter_tombstoned_edges());
 
         for e in run.iter_edges() {
             if blocked_nodes.contains(&e.src) || blocked_nodes.contains(&e.dst) {
@@ -665,6 +664,10 @@ fn build_segment_from_runs(seg_id: SegmentId, runs: &Arc<Vec<Arc<L0Run>>>) -> Cs
             }
             edges.push(e);
         }
+
+        // As on the read path, a run's edge tombstones only hide *older* data: an edge that
+        // is still present in the same run was re-created after the delete.
+        blocked_edges.extend(run.iter_tombstoned_edges());
     }
 
     edges.sort();
@@ -917,18 +920,21 @@ impl<'a> WriteTxn<'a> {
                 })?;
             }
 
-            for edge in run.iter_edges() {
-                wal.append(&WalRecord::CreateEdge {
-                    src: edge.src,
-                    rel: edge.rel,
-                    dst: edge.dst,
-                })?;
-            }
+            // Tombstones are logged before edge creations: replay feeds the records to a
+            // MemTable in log order, and a relationship deleted and re-created by the same
+            // transaction must survive (tombstone_edge removes pending creations of the key).
             for node in run.iter_tombstoned_nodes() {
                 wal.append(&WalRecord::TombstoneNode { node })?;
             }
             for edge in run.iter_tombstoned_edges() {
                 wal.append(&WalRecord::TombstoneEdge {
+                    src: edge.src,
+                    rel: edge.rel,
+                    dst: edge.dst,
+                })?;
+            }
+            for edge in run.iter_edges() {
+                wal.append(&WalRecord::CreateEdge {
                     src: edge.src,
                     rel: edge.rel,
                     dst: edge.dst,
